@@ -210,6 +210,22 @@ func checkEdits(c *Ctx, deletes bool) {
 				o.TopFan = 6
 			}
 			doc := genDoc(r, o)
+			if i%4 == 3 {
+				// arrays of numbers / strings, so that the bulk accessors have something to return
+				var parts []string
+				for a := 0; a < 1+r.Intn(3); a++ {
+					var el []string
+					for e := 0; e < 1+r.Intn(6); e++ {
+						if a == 2 {
+							el = append(el, `"`+strPool[r.Intn(len(strPool))]+`"`)
+						} else {
+							el = append(el, genNumber(r))
+						}
+					}
+					parts = append(parts, fmt.Sprintf(`"a%d":[%s]`, a, strings.Join(el, ",")))
+				}
+				doc = []byte("{" + strings.Join(parts, ",") + `,"z":true}`)
+			}
 			cp := r.Bool()
 			out := implParse(doc, false, cp, nil)
 			if out.Err {
@@ -278,6 +294,7 @@ func checkEdits(c *Ctx, deletes bool) {
 				}
 				// all read paths after the operation
 				c.compareReads(h.pj, "", info, "after-edit-")
+				c.bulkVsTraversal(h.pj, []byte(fmt.Sprintf("%s  AFTER %s", h.doc, strings.Join(h.ops, " ; "))), 6)
 				if extraAfterEdit != nil {
 					extraAfterEdit(c, h, info)
 				}
